@@ -182,7 +182,10 @@ class Server:
                     return g
                 except (OSError, ValueError):
                     pass
-        g = self.golden_raw(dict(req, want_touched=True) if self.want_touched else req)
+        wt = self.want_touched and self.stats.get("touched_evals", 0) < 400
+        if wt:
+            self.stats["touched_evals"] = self.stats.get("touched_evals", 0) + 1
+        g = self.golden_raw(dict(req, want_touched=True) if wt else req)
         g["key"] = key
         g["by"] = self.variant.get("name", "?")
         g["req"] = req
